@@ -3,6 +3,8 @@ import Qryn.Proofs.Ident
 import Qryn.Proofs.Closed
 import Qryn.Gen.Params
 import Qryn.Proofs.PlanClosed
+import Qryn.Proofs.PlanClosedMetric
+import Qryn.Proofs.PlanClosedTraceQL
 /-! # C10 — request strings can never change the structure of SQL sent to ClickHouse
 
 Property theorems only. Model: `Qryn.Sql.quote` (= `StringVal.String`, table regenerated from
@@ -157,6 +159,73 @@ theorem planLog_structure_invariant (c : LogQL.Ctx) (q : LogQL.LogQuery)
     kinds (renderSel (LogQL.planLog c q)) = kinds (renderSegs ((segsSel (LogQL.planLog c q)).map Seg.shape)) :=
   render_structure_invariant_sel _ (LogQL.wf_planLog c q ha hq)
 
+
+/-! ## Numbers, and the planners beyond the LogQL log planner -/
+
+/-- **numbers_closed.** Everything the planners print with `%d` / `strconv.Itoa` / `toString` — time bounds, limits,
+    durations, bit-set constants, shift amounts, `ctx.Id()` counters — is closed text for EVERY number: the decimal
+    text of a natural number consists of digits (one bareword), an integer has at most a leading `-`; a `%f` literal
+    (`fixedText`: integer part, point, six decimals) is one bareword. Read from a state between tokens they leave the
+    lexer between tokens. This discharges the number hypotheses of `closed_fragments_planLog_partial`. -/
+theorem numbers_closed :
+    (∀ n : Nat, (∀ d ∈ natDigits n, isDigitB d = true) ∧ natDigits n ≠ [] ∧ rawE (natDigits n) = true) ∧
+    (∀ i : Int, intText i = (if i < 0 then 45 :: natDigits i.natAbs else natDigits i.natAbs) ∧ rawE (intText i) = true) ∧
+    (∀ u s : Nat, allWord (b (fixedText u s)) = true ∧ rawE (b (fixedText u s)) = true) :=
+  ⟨fun n => ⟨natDigits_digits n, natDigits_ne_nil n, rawE_natDigits n⟩,
+   fun i => ⟨intText_eq i, rawE_intText i⟩,
+   fun u s => ⟨allWord_fixedText u s, rawE_fixedText u s⟩⟩
+
+/-- **plan_closed_log.** `closed_fragments` for the LogQL log planner at full strength: for every context whose four
+    table names are closed text (configuration) and every query of the modelled fragment whose label-FILTER names are
+    `LabelName` tokens of the LogQL lexer (class regenerated in `Gen.Lexers`; they are embedded as `'name'` without
+    escaping), the statement is well formed for its leaves. No hypothesis on any number, on matcher names/values,
+    regexes, needles, label-filter values. -/
+theorem plan_closed_log (c : LogQL.Ctx) (q : LogQL.LogQuery) (ht : LogQL.TablesOK c)
+    (hn : ∀ lc ∈ LogQL.labelConds q, LogQL.condNamesOK lc) :
+    safeSegs .normal (segsSel (LogQL.planLog c q)) = true ∧
+    kinds (renderSel (LogQL.planLog c q)) = kinds (renderSegs ((segsSel (LogQL.planLog c q)).map Seg.shape)) :=
+  have hw := LogQL.wf_planLog c q (LogQL.atomsOK_of_tables c q ht) (LogQL.queryOK_of_names q hn)
+  ⟨closed_fragments_partial _ hw, render_structure_invariant_sel _ hw⟩
+
+/-- **plan_closed_metric.** The LogQL METRIC planner model (`planMetric`: range aggregations with and without unwrap,
+    the metrics_15s shortcut, by/without, vector aggregations, topk/bottomk, comparisons, step fix, labels join,
+    matrix finalizer): for every context (tables closed) and every metric query (label-filter names `LabelName`
+    tokens) the rendered template is well formed for its string leaves and its token structure does not depend on
+    them. The by/without label names and the unwrap label need NO hypothesis: the planner passes them through the
+    escape (`mapFilterKeys`, `mapAt` leaves). Durations, `k`, comparison literals, step: digits for all values. -/
+theorem plan_closed_metric (c : LogQL.MCtx) (q : LogQL.MetricQuery) (h : LogQL.MAtomsOK c) (hn : LogQL.MetricNamesOK q) :
+    safeSegs .normal (segsSel (LogQL.planMetric c q)) = true ∧
+    kinds (renderSel (LogQL.planMetric c q)) = kinds (renderSegs ((segsSel (LogQL.planMetric c q)).map Seg.shape)) :=
+  have hw := LogQL.wf_planMetric c q h hn
+  ⟨closed_fragments_partial _ hw, render_structure_invariant_sel _ hw⟩
+
+/-- **plan_closed_traceql.** The TraceQL planner model `plan` (simple and complex scripts, aggregators, the attr-less
+    path, the random filter of complex request portions, `TracesDataPlanner`): whenever the planner accepts a script,
+    the statement is well formed for its leaves and its token structure does not depend on them. Attribute names
+    (TraceQL `Label_name` admits `-` and `.`), string values, regexes and the aggregated attribute are leaves: no
+    hypothesis. `CtxOK`: the four table names are closed text, cached trace ids (second-order text, hex from the
+    database) contain no quote or backslash. -/
+theorem plan_closed_traceql (c : TraceQL.Ctx) (hc : TraceQL.CtxOK c) (script : TraceQL.Script) (X : Sel)
+    (h : TraceQL.plan c script = .ok X) :
+    safeSegs .normal (segsSel X) = true ∧ kinds (renderSel X) = kinds (renderSegs ((segsSel X).map Seg.shape)) :=
+  have hw := TraceQL.wf_plan c hc script X h
+  ⟨closed_fragments_partial _ hw, render_structure_invariant_sel _ hw⟩
+
+/-- … the tag-names request (`PlanTagsV2`) -/
+theorem plan_closed_traceql_tags (c : TraceQL.Ctx) (hc : TraceQL.CtxOK c) (script : TraceQL.Script) (X : Sel)
+    (h : TraceQL.planTags c script = .ok X) :
+    safeSegs .normal (segsSel X) = true ∧ kinds (renderSel X) = kinds (renderSegs ((segsSel X).map Seg.shape)) :=
+  have hw := TraceQL.wf_planTags c hc script X h
+  ⟨closed_fragments_partial _ hw, render_structure_invariant_sel _ hw⟩
+
+/-- … the tag-values request (`PlanValuesV2`): the requested tag `key` is ANY byte string (a leaf) -/
+theorem plan_closed_traceql_values (c : TraceQL.Ctx) (hc : TraceQL.CtxOK c) (kvTable : String)
+    (hkv : rawE (b kvTable) = true) (key : Bytes) (script : TraceQL.Script) (X : Sel)
+    (h : TraceQL.planValues c kvTable key script = .ok X) :
+    safeSegs .normal (segsSel X) = true ∧ kinds (renderSel X) = kinds (renderSegs ((segsSel X).map Seg.shape)) :=
+  have hw := TraceQL.wf_planValues c hc kvTable hkv key script X h
+  ⟨closed_fragments_partial _ hw, render_structure_invariant_sel _ hw⟩
+
 /-- the parameter inventory has no duplicate entry (a key identifies one taint obligation) -/
 theorem inventory_keys_distinct : Gen.params.Nodup := by decide +kernel
 
@@ -228,6 +297,42 @@ example : safeSegs .normal (segsSel (LogQL.planLog exCtx exQuery)) = true :=
   closed_fragments_planLog_partial _ _ exAtoms exQueryOK
 example : safeSegs .normal (segsSel (LogQL.planLog exCtxCluster exQuery)) = true :=
   closed_fragments_planLog_partial _ _ exAtomsCluster exQueryOK
+
+-- non-vacuity of `plan_closed_log`: the hypotheses are table names and label-filter names only
+private theorem exTables : LogQL.TablesOK exCtx := ⟨by decide +kernel, by decide +kernel, by decide +kernel, by decide +kernel⟩
+private theorem exTablesCluster : LogQL.TablesOK exCtxCluster :=
+  ⟨by decide +kernel, by decide +kernel, by decide +kernel, by decide +kernel⟩
+private theorem exNames : ∀ lc ∈ LogQL.labelConds exQuery, LogQL.condNamesOK lc := by
+  intro lc h
+  simp [LogQL.labelConds, exQuery] at h
+  rcases h with rfl | rfl
+  · exact ⟨by show LogQL.LabelClass "lbl"; unfold LogQL.LabelClass; decide +kernel,
+      by show LogQL.LabelClass "x_1"; unfold LogQL.LabelClass; decide +kernel⟩
+  · show LogQL.LabelClass "a"
+    unfold LogQL.LabelClass; decide +kernel
+example := plan_closed_log exCtx exQuery exTables exNames
+example := plan_closed_log exCtxCluster exQuery exTablesCluster exNames
+-- `plan_closed_metric`: topk over a grouped sum over an unwrapped rate, hostile by-labels, unwrap label and matcher values
+private def exMCtx : LogQL.MCtx := { exCtxCluster with stepNs := 5000000000, metrics15Table := "`qryn`.metrics_15s_dist" }
+private def exMetric : LogQL.MetricQuery :=
+  .topk ⟨true, 3, .agg ⟨.sum, some ⟨true, ["a'b", "x\\"]⟩,
+    ⟨.unwrap .rate "l'--", exQuery, 60000000000, none, some ⟨false, ["';"]⟩, some ⟨.gt, ⟨1, [5]⟩⟩⟩, none, none⟩, some ⟨.le, ⟨100, []⟩⟩⟩
+example := plan_closed_metric exMCtx exMetric ⟨exTablesCluster, by decide +kernel⟩ exNames
+-- `plan_closed_traceql`: a complex script with a hostile attribute name and value, accepted by the planner
+private def exTCtx : TraceQL.Ctx := ⟨1700000000000000000, 1700003600000000000, 0, 20, true, "tempo_traces_attrs_gin",
+  "`q`.tempo_traces_attrs_gin_dist", "tempo_traces", "`q`.tempo_traces_dist", 7, 3, ["0af7651916cd43dd8448eb211c80319c"]⟩
+private def exTermA : TraceQL.Term := ⟨".a-b--c", .eq, .str [34, 39, 34] (some [39, 59, 45, 45, 92])⟩
+private def exTermD : TraceQL.Term := ⟨"duration", .gt, .dur ⟨false, [1], false, []⟩ .s⟩
+private def exScript : TraceQL.Script :=
+  [(⟨some (.leafOp exTermA .or (.leaf exTermD)), some ⟨.avg, ".x'y", .gt, ⟨true, [2], true, [5]⟩, none⟩⟩, .and),
+   (⟨some (.leaf exTermD), none⟩, .none)]
+private theorem exTCtxOK : TraceQL.CtxOK exTCtx :=
+  ⟨by decide +kernel, by decide +kernel, by decide +kernel, by decide +kernel, by decide +kernel⟩
+example : (match TraceQL.plan exTCtx exScript with | .ok _ => true | .error _ => false) = true := by decide +kernel
+example : ∀ X, TraceQL.plan exTCtx exScript = .ok X → safeSegs .normal (segsSel X) = true :=
+  fun X h => (plan_closed_traceql exTCtx exTCtxOK exScript X h).1
+example : (match TraceQL.planValues exTCtx "tempo_traces_kv" [39, 92] (exScript.take 1) with | .ok _ => true | .error _ => false) = true := by
+  decide +kernel
 -- the string leaves of the nodes added for the TraceQL and the LogQL metric planners (`anyIfNum`, `mapAt`,
 -- `mapFilterKeys`) with hostile keys
 example : safeSegs .normal (segsExpr (.callT "bitAnd" [.anyIfNum [39, 92], .mapAt (.raw "labels") [39, 45, 45],
